@@ -316,6 +316,17 @@ let additive (lbc : str -> n list) (o : options) (p : str) : bool =
       let lastws = (match last_opt sws with Some w -> blen w.w_ws | None -> N0) in
       N.eqb (N.sub total lastws) (dwm (trim_end_sp p))
 
+(* an inserted hyphen has room: never wider than the whitespace plus the next fragment *)
+let pen_ok (lbc : str -> n list) (o : options) (first : bool) (p : str) : bool =
+  match pipeline_words cw alnum lbc custom3 o first p with
+  | None -> true
+  | Some bws ->
+      let rec ok = function
+        | a :: (b :: _ as r) -> n_le (blen a.w_pen) (N.add (blen a.w_ws) b.w_width) && ok r
+        | [a] -> a.w_pen = []
+        | [] -> true in
+      ok bws
+
 let default_pen p = (p = default_penalties)
 
 (* ------------------------------------------------------------------ C03 at the wrap level when the built-in
@@ -595,6 +606,7 @@ let run (lineno : int) (lbc : str -> n list) ofit (args : string array) (impl : 
                  let got = List.map (fun l -> l.txt) (dolines slow) in
                  if got = [ind @ trim_end_sp line] then say "C05" "ok" "fits"
                  else if not (additive lbc o line) then say "C05" "known" "CutInsideEscape"
+                 else if not (pen_ok lbc o first line) then say "C05" "known" "PenaltyWithoutRoom"
                  else say "C05" "FAIL" "a paragraph that fits was not returned as one unchanged line"
                end else say "C05" "ok" "shortcut-only"
              end
